@@ -316,6 +316,10 @@ v('C13 C02', 'fire', S, """        self.lla[0] = self.initial_pva[LLA_COLS]
         self.mat_nb[0] = transform.mat_from_rph(pva[RPH_COLS])""", 'seeded C13: buffers filled from the raw argument')
 
 
+v('C12 C08 C11', 'fire', F, '        time_delta = integrator.get_time() - time', '        time_delta = next_time - time', 'seeded C12: requested instead of integrated interval')
+v('C11', 'fire', F, 'q = np.hstack((gyro_model.v, accel_model.v, gyro_model.q, accel_model.q))', 'q = np.hstack((gyro_model.v, gyro_model.q, accel_model.v, accel_model.q))', 'seeded C11 (same as an own variant)')
+
+
 # ----------------------------------------------------------------------- runner
 def _run_variant(args):
     prop, var, root, check_py = args
